@@ -86,7 +86,7 @@ func (o outcome) MarshalJSON() ([]byte, error) {
 var progress, running atomic.Int64
 var where atomic.Value // what is running, for the hang report
 
-const hangAfter = 6 * time.Second
+const hangAfter = 10 * time.Second
 
 var goroutineHead = regexp.MustCompile(`^goroutine (\d+) \[([^\]]*)\]:`)
 
